@@ -156,6 +156,56 @@ def GPEv.ok (d : Nat → Nat) (U : List Nat) : GPEv → Prop
   | .resp _ _ peers => ∀ kp ∈ peers, kp.dist = d kp.peer ∧ kp.peer ∈ U
   | _ => True
 
+/-! ### Ghost information for value and provider lookups -/
+
+/-- Ghost: every peer named in an accepted response of a value lookup. -/
+def GetRecord.learned (s : GetRecord) : List GREv → List Nat
+  | [] => []
+  | e :: es =>
+    match e with
+    | .resp p _ peers =>
+      if (kpLookup p s.pending).isSome then
+        peers.map (·.peer) ++ GetRecord.learned (s.step e).1 es
+      else GetRecord.learned (s.step e).1 es
+    | _ => GetRecord.learned (s.step e).1 es
+
+/-- Ghost: every peer named in an accepted response of a provider lookup. -/
+def GetProviders.learned (s : GetProviders) : List GPEv → List Nat
+  | [] => []
+  | e :: es =>
+    match e with
+    | .resp p _ peers =>
+      if (kpLookup p s.pending).isSome then
+        peers.map (·.peer) ++ GetProviders.learned (s.step e).1 es
+      else GetProviders.learned (s.step e).1 es
+    | _ => GetProviders.learned (s.step e).1 es
+
+def isPartial : Option QAction → Bool
+  | some (.partialRecord _ _ _) => true
+  | _ => false
+
+/-- A step of a value lookup is productive if it sends a request, hands out a partial result, or
+consumes an outstanding request. -/
+def GetRecord.productive (s : GetRecord) : GREv → Bool
+  | .next => isSend s.nextAction.2 || isPartial s.nextAction.2
+  | .resp p _ _ => (kpLookup p s.pending).isSome
+  | .fail p => (kpLookup p s.pending).isSome
+
+def GetRecord.productiveCount (s : GetRecord) : List GREv → Nat
+  | [] => 0
+  | e :: es => (if s.productive e then 1 else 0) + GetRecord.productiveCount (s.step e).1 es
+
+/-- A step of a provider lookup is productive if it sends a request or consumes an outstanding
+one. -/
+def GetProviders.productive (s : GetProviders) : GPEv → Bool
+  | .next => isSend s.nextAction.2
+  | .resp p _ _ => (kpLookup p s.pending).isSome
+  | .fail p => (kpLookup p s.pending).isSome
+
+def GetProviders.productiveCount (s : GetProviders) : List GPEv → Nat
+  | [] => 0
+  | e :: es => (if s.productive e then 1 else 0) + GetProviders.productiveCount (s.step e).1 es
+
 /-! ## QueryEngine -/
 
 inductive EOp where
